@@ -4,8 +4,9 @@
    files.  Violations are interned (c_vtab) and referred to by index.  The judge returns
      [ domain ok ; impl sequential = model sequential ; impl parallel ~ impl sequential (the property) ;
        model ideal parallel ~ model sequential ; impl parallel = model parallel under each candidate ;
-       the case is in the class of theorem C07_errors_swallowed ; the worker-history stream agrees with the model's worker ]. *)
-From TL Require Import Lib.Base Lib.GenTypes Model.OrchParTypes Gen.OrchParGen Model.OrchPar.
+       the case is in the class of theorem C07_errors_swallowed ; the worker-history stream agrees with the model's worker ;
+       rule-instance level: impl sequential = rseq_run on the per-rule tables ; impl parallel = rpar_run on them ]. *)
+From TL Require Import Lib.Base Lib.GenTypes Model.OrchParTypes Gen.OrchParGen Model.OrchPar Model.OrchParRules.
 
 Record pcase := {
   c_vtab : list violation;
@@ -24,6 +25,15 @@ Record pcase := {
   c_served : list (nat * option (list nat)); (* worker-history stream: (file, what _lint_file_worker returned for it in a
                                              process that had served other files before; None = it raised) - dictionaries,
                                              interned in c_vtab like the violations *)
+  (* rule-instance level (Model/OrchParRules.v): per registered rule class, in registry order *)
+  c_rules_measured : bool;                (* the tables below were measured (one call on all files; not for several groups) *)
+  c_rules : list bool;                    (* the class overrides finalize *)
+  c_rule_out : list (list (option (list nat))); (* by file, by rule: what lint_file of a new Orchestrator whose registry holds
+                                             only that rule returns for the file (None = it raises) *)
+  c_vis : list bool;                      (* by file: lint_file gets as far as _execute_rules *)
+  c_rule_fin_nil : list (list nat);       (* by rule: finalize() of a new instance *)
+  c_rule_fin_full : list (list nat);      (* by rule: finalize() after lint_file of every file, in order *)
+  c_rule_fin_seen : list (list nat);      (* by rule: finalize() after lint_file of the files c_seen lets through *)
   c_seq : option (list nat);              (* implementation, sequential (None = raised / error exit) *)
   c_par : option (list nat);              (* implementation, parallel *)
   c_seq_exit : nat;
@@ -126,6 +136,43 @@ Definition served_ok (q : pquirks) (c : pcase) : bool :=
              | _, _ => false
              end) (c_served c).
 
+(* ---------- the rule-instance level on measured tables ---------- *)
+(* the state of an instance: the files it has checked, in order *)
+Definition vis_files (c : pcase) : list nat := filter (fun f => nth f (c_vis c) true) (files_of c).
+
+Definition jrule (c : pcase) (i : nat) (ov : bool) : rule nat (list nat) :=
+  {| r_init := [];
+     r_check := fun s f => (match nth i (nth f (c_rule_out c) []) (Some []) with
+                            | None => CRaiseConfig
+                            | Some l => COk (look c l)
+                            end, s ++ [f]);
+     r_finalize := if ov
+                   then Some (fun s => match s with
+                                       | [] => look c (nth i (c_rule_fin_nil c) [])
+                                       | _ => if list_eqb Nat.eqb s (vis_files c) then look c (nth i (c_rule_fin_full c) [])
+                                              else if list_eqb Nat.eqb s (seen_files c) then look c (nth i (c_rule_fin_seen c) [])
+                                              else [poison]
+                                       end)
+                   else None |}.
+
+Definition jrules (c : pcase) : list (rule nat (list nat)) :=
+  map (fun p : nat * bool => jrule c (fst p) (snd p)) (combine (seq 0 (List.length (c_rules c))) (c_rules c)).
+
+Definition j_excluded (c : pcase) (f : nat) : bool := negb (nth f (c_vis c) true).
+Definition j_ignored (c : pcase) (f : nat) : bool := false.
+
+Definition rules_dom_ok (c : pcase) : bool :=
+  let nr := List.length (c_rules c) in
+  (List.length (c_rule_out c) =? nfiles c) && forallb (fun row : list (option (list nat)) => List.length row =? nr) (c_rule_out c)
+  && (List.length (c_vis c) =? nfiles c) && (List.length (c_rule_fin_nil c) =? nr) && (List.length (c_rule_fin_full c) =? nr)
+  && (List.length (c_rule_fin_seen c) =? nr) && negb (nr =? 0)
+  && match c_groups c with [] => true | _ => false end.
+
+Definition r_seq (c : pcase) : option (list violation) :=
+  rseq_run nat (list nat) (j_excluded c) (j_ignored c) (jrules c) (files_of c).
+Definition r_par (q : pquirks) (c : pcase) : option (list violation) :=
+  rpar_run nat (list nat) (j_excluded c) (j_ignored c) (jrules c) (m_sees c) q (c_mw c) (c_cpu c) (c_sched c) (files_of c).
+
 Definition judge (q : pquirks) (c : pcase) : list bool :=
   let impl_seq := (option_map (look c) (c_seq c), c_seq_exit c) in
   let impl_par := (option_map (look c) (c_par c), c_par_exit c) in
@@ -134,4 +181,6 @@ Definition judge (q : pquirks) (c : pcase) : list bool :=
   :: obs_eq false impl_par impl_seq
   :: obs_eq false (view c (m_par ideal c)) (view c (m_seq c))
   :: map (fun k => obs_eq (c_ordered c) impl_par (view c (m_par k c))) (candidates q)
-  ++ [err_explained q c; served_ok q c].
+  ++ [err_explained q c; served_ok q c;
+      negb (c_rules_measured c) || (rules_dom_ok c && obs_eq true impl_seq (view c (r_seq c)));
+      negb (c_rules_measured c) || (rules_dom_ok c && obs_eq (c_ordered c) impl_par (view c (r_par q c)))].
